@@ -1343,10 +1343,12 @@ class MultiAgentRLAlgorithm(EvolvableAlgorithm, ABC):
         agent_masks = None
         if env_defined_actions is not None:
             agent_masks = {}
-            for idx, agent in enumerate(env_defined_actions.keys()):
+            for agent in env_defined_actions.keys():
                 # Handle None if environment isn't vectorized
                 if env_defined_actions[agent] is None:
                     if not self.discrete_actions:
+                        # NOTE: The key order of infos need not be the order of agent_ids
+                        idx = self.agent_ids.index(agent)
                         nan_arr = np.empty(self.action_dims[idx])
                         nan_arr[:] = np.nan
                     else:
